@@ -47,7 +47,7 @@ static int sample_times(double *ts, double t, double const *bounds, int nbnd)
     qsort(ts, (size_t)n, sizeof(double), cmpd);
     return n;
 }
-#define HS (1 << 16)
+#define HS (1 << 22)
 static char *seen[HS];
 static int is_dup(char const *line)
 {
